@@ -291,10 +291,12 @@ def lex_tokens(text):
     return toks
 
 
-def run_reader(mods, fmt, path, enc, params, atoms=None, collect=False):
+def run_reader(mods, fmt, path, enc, params, atoms=None, collect=False, transforming=False):
     """collect: the consumer keeps every yielded tree and looks at them only after the reader has finished
     (list(reader), what --split does); otherwise each tree is observed when it is yielded (streaming).  A
-    yielded tree is the reader's answer for its sentence in both cases."""
+    yielded tree is the reader's answer for its sentence in both cases.  transforming: like the command line, the
+    consumer transforms each tree (trace deletion, head marking, binarization - operations that parse and edit
+    labels) after looking at it and before asking for the next one."""
     ti = mods['treeinput']
     events = []
     kept = []
@@ -311,6 +313,13 @@ def run_reader(mods, fmt, path, enc, params, atoms=None, collect=False):
                     kept.append(tree)
                 else:
                     observe(tree)
+                    if transforming:
+                        try:
+                            tf_ = mods['transform']
+                            tree = tf_.ptb_delete_traces(tree)
+                            tree = tf_.binarize(tf_.negra_mark_heads(tree))
+                        except Exception:
+                            pass
             last = {'a': 'eof'}
         except Exception as ex:
             last = {'a': 'error', 'exc': type(ex).__name__, 'msg': str(ex)[:80]}
@@ -417,13 +426,14 @@ def record_corpus_case(cid, Ts, fmt, opts, sep, mods, seed, origin='tlc'):
         data = text.encode(enc)
         with (gzip.open(path, 'wb') if gz else open(path, 'wb')) as f:
             f.write(data)
-        events = run_reader(mods, fmt, path, enc, reader_params(opts, sep, firstid), collect=seed % 2 == 1)
+        events = run_reader(mods, fmt, path, enc, reader_params(opts, sep, firstid), collect=seed % 3 == 1,
+                            transforming=seed % 3 == 2)
     finally:
         shutil.rmtree(tmp, ignore_errors=True)
     return {'id': cid, 'origin': origin, 'kind': 'corpus', 'fmt': fmt, 'opts': sorted(opts), 'sep': [sep],
             'four': 'T' if four else 'F', 'toks': [], 'firstid': firstid, 'trees': Ts, 'sids': sids,
             'expsids': expsids, 'input': inputs, 'events': events, 'enc': enc, 'gz': gz, 'text': text[:300],
-            'consume': 'collect' if seed % 2 == 1 else 'stream'}
+            'consume': ('stream', 'collect', 'stream+transform')[seed % 3]}
 
 
 def _with_root_label(T, lab):
